@@ -51,6 +51,7 @@ class MacroExpander(Visitor):
             new_circuit.macros.update(circuit.macros)
         new_circuit.constants.update(circuit.constants)
         new_circuit.registers.update(circuit.registers)
+        new_circuit.usepulses.extend(circuit.usepulses)
         new_circuit.body.statements.extend(self.visit(circuit.body).statements)
         return new_circuit
 
@@ -64,11 +65,17 @@ class MacroExpander(Visitor):
             if (
                 isinstance(new_stmt, BlockStatement)
                 and new_stmt.parallel == block.parallel
+                and not new_stmt.subcircuit
             ):
                 new_statements.extend(new_stmt.statements)
             else:
                 new_statements.append(new_stmt)
-        return BlockStatement(parallel=block.parallel, statements=new_statements)
+        return BlockStatement(
+            parallel=block.parallel,
+            subcircuit=block.subcircuit,
+            iterations=block.iterations,
+            statements=new_statements,
+        )
 
     def visit_GateStatement(self, gate):
         return replace_gate(gate, self.macros)
@@ -105,6 +112,8 @@ class GateReplacer(Visitor):
     def visit_BlockStatement(self, block: BlockStatement):
         return BlockStatement(
             parallel=block.parallel,
+            subcircuit=block.subcircuit,
+            iterations=self.visit(block.iterations),
             statements=[self.visit(stmt) for stmt in block.statements],
         )
 
